@@ -213,7 +213,7 @@ func genC08(seed int64, tier string) []caseOut {
 	}
 	out = append(out, builderRefusals(r)...)
 	out = append(out, concurrentBuilds(r)...)
-	nb := 64
+	nb := 80
 	if tier == "thorough" {
 		nb = 600
 	}
@@ -419,7 +419,8 @@ func lifecycleCase(r *rand.Rand, idx int) caseOut {
 	}
 	// ---- create
 	keys := randDocKeys(r, "key", 1+r.Intn(3))
-	svcs := []svcSpec{{"svc1", "T1", "https://example.com/one"}}
+	// endpoints with the characters an HTML-safe encoder escapes (&, <, >): sizes are those of the canonical form
+	svcs := []svcSpec{{"svc1", "T1", "https://example.com/one?user=alice&lang=en&q=<a>"}}
 	if r.Intn(2) == 0 {
 		svcs = append(svcs, svcSpec{"svc2", "T2", "https://example.com/two"})
 	}
@@ -513,7 +514,7 @@ func lifecycleCase(r *rand.Rand, idx int) caseOut {
 			}
 			addS := []svcSpec{}
 			if r.Intn(2) == 0 {
-				addS = append(addS, svcSpec{fmt.Sprintf("svcU%d", len(steps)), "TU", "https://example.com/u"})
+				addS = append(addS, svcSpec{fmt.Sprintf("svcU%d", len(steps)), "TU", "https://example.com/u?a=1&b=2&c=<3>"})
 			}
 			addA := []string{}
 			if r.Intn(2) == 0 {
@@ -651,7 +652,7 @@ func lifecycleCase(r *rand.Rand, idx int) caseOut {
 		for _, k := range keys {
 			exp.keys = append(exp.keys, k.raw())
 		}
-		s := svcSpec{"rsvc1", "TR", "https://example.com/r"}
+		s := svcSpec{"rsvc1", "TR", "https://example.com/r?x=1&y=<2>&z=3"}
 		exp.svcs = A{s.raw()}
 		origin = nil
 		if useClient {
@@ -742,6 +743,18 @@ func lifecycleCase(r *rand.Rand, idx int) caseOut {
 		if _, eerr := operationparser.New(exact).ParseOperation(ns, st.bytes, false); perr == nil && eerr != nil {
 			allParsed = false
 			why = append(why, fmt.Sprintf("step %d (%s): refused under a maximum operation size equal to its length (%d): %v", i, st.typ, len(st.bytes), eerr))
+		}
+		// ... and one whose maximum delta size is exactly the length of this request's canonical delta
+		{
+			var reqM map[string]interface{}
+			if json.Unmarshal(st.bytes, &reqM) == nil && reqM["delta"] != nil {
+				exactD := cfg
+				exactD.MaxDeltaSize = uint(len(jcs(reqM["delta"])))
+				if _, eerr := operationparser.New(exactD).ParseOperation(ns, st.bytes, false); perr == nil && eerr != nil {
+					allParsed = false
+					why = append(why, fmt.Sprintf("step %d (%s): refused under a maximum delta size equal to the length of its canonical delta (%d): %v", i, st.typ, exactD.MaxDeltaSize, eerr))
+				}
+			}
 		}
 		if perr != nil {
 			allParsed = false
